@@ -120,6 +120,7 @@ package xds
 // ASSUMED frame: it reads the intention and writes nothing that exists.
 //@ func intentionToIntermediateRBACForm
 //@ trusted
+//@ opt pure yes
 //@ results rixn, rerr
 //@ modifies nothing
 
@@ -132,4 +133,5 @@ package xds
 //@ requires[elements] forall j int :: 0 <= j && j < len(intentions) ==> intentions[j] != nil
 //@ ensures[no-more-rules-than-intentions] err == nil ==> len(rules) <= len(intentions)
 //@ loop 1 invariant[count] len(rbacIxns) <= range1_idx
+//@ loop 1 invariant[each-rule-built-with-its-own-peer-trust-bundle] forall k int :: 0 <= k && k < len(rbacIxns) ==> exists j int :: 0 <= j && j < range1_idx && rbacIxns[k] == ret0[*rbacIntention](intentionToIntermediateRBACForm(intentions[j], localInfo, isHTTP, trustBundlesByPeer[intentions[j].SourcePeer], providerMap))
 
